@@ -94,7 +94,8 @@ os.makedirs(f"{VERIF}/replays", exist_ok=True)
 known = known_findings()
 seen_rules = set()
 for (w, r, what) in [(v[0], v[1], v[2]) for v in violations] + [(u[0], u[1], "miri: undefined behaviour / data race: " + u[2][-600:]) for u in ub]:
-    m = re.search(r"VIOLATION (\w+)", what)
+    # (lines of concurrent executions can run into each other: skip a "VIOLATION" that is followed by another line's start)
+    m = re.search(r"VIOLATION ((?!SIG\b)\w+)", what)
     rule = m.group(1) if m else "miri_ub_or_data_race"
     if rule in seen_rules:
         continue
